@@ -50,6 +50,7 @@ type iInc struct {
 	Aliases  []string
 	Excludes []string
 	IV       string // value of include var IV_<NS> ("" = none)
+	Short    bool   // written in the short form `ns: ./path` (only possible without options)
 }
 
 type iFile struct {
@@ -199,6 +200,9 @@ func genI(ch *vs.Choices, c09 bool, tier string) *iProg {
 					inc.Excludes = []string{cand.Name}
 				}
 			}
+			if inc.Target >= 0 && inc.Dir == "" && !inc.Optional && !inc.Internal && !inc.Flatten && len(inc.Aliases) == 0 && len(inc.Excludes) == 0 && inc.IV == "" {
+				inc.Short = ch.Bool(2, 3)
+			}
 			f.Includes = append(f.Includes, inc)
 		}
 	}
@@ -255,6 +259,15 @@ func (p *iProg) fileYAML(f *iFile) string {
 				rel, _ := filepath.Rel(filepath.Dir(f.Rel), p.Files[inc.Target].Rel)
 				if strings.HasSuffix(rel, "/Taskfile.yml") && len(inc.NS)%2 == 0 {
 					rel = strings.TrimSuffix(rel, "/Taskfile.yml") // include by directory
+				}
+				if inc.Short {
+					// rewrite the header line just written: short form
+					cur := sb.String()
+					cur = strings.TrimSuffix(cur, fmt.Sprintf("  %s:\n", inc.NS))
+					sb.Reset()
+					sb.WriteString(cur)
+					fmt.Fprintf(&sb, "  %s: ./%s\n", inc.NS, rel)
+					continue
 				}
 				fmt.Fprintf(&sb, "    taskfile: ./%s\n", rel)
 			}
